@@ -29,6 +29,8 @@ Definition case := list (tx * txobs).
 
 Definition xinfo_eqb (x y : xinfo) : bool :=
   match x_kind x, x_kind y with XCall, XCall | XCreate, XCreate => true | _, _ => false end
+  && match x_ty x, x_ty y with TLegacy, TLegacy | TAccess, TAccess | TDynamic, TDynamic => true | _, _ => false end
+  && (x_raw x =? x_raw y)
   && (x_cap x =? x_cap y) && (x_intr x =? x_intr y) && (x_exec x =? x_exec y)
   && match x_out x, x_out y with XStop, XStop | XRevert, XRevert | XInvalid, XInvalid => true | _, _ => false end.
 
